@@ -37,9 +37,12 @@ def run(ctx):
             S.append(dict(sc, bulk=rnd.choice([1, 2, 3, 5]), api="bulkwalk", cut=rnd.choice(list(drv_walk.CUTS)), proto="v2c"))
     for sc in W.random_big(rnd, 150 if q else 1500, [0]):
         S.append(dict(sc, api="multiwalk" if len(sc["roots"]) > 1 else rnd.choice(["walk", "multiwalk"]), proto=rnd.choice(["v2c", "v2c"] + W.PROTO_SAMPLE)))
+    for sc in W.random_big(rnd, 80 if q else 800, [2, 3, 4, 7, 25]):
+        # larger bulk walks: subtrees of very different sizes are exhausted in different rounds
+        S.append(dict(sc, api="bulkwalk", cut=rnd.choice(list(drv_walk.CUTS)), proto=rnd.choice(["v2c", "v2c", "v2c"] + W.PROTO_SAMPLE)))
     ctx.rule = ("scenarios = TLC-enumerated initial states of Walk.tla (every database over the %d-instance universe x every list of 1..3 "
                 "pairwise disjoint roots in every order%s) replayed through Client.walk/multiwalk, PyWrapper, v2c and sampled v3 levels, "
-                "plus seeded random larger databases; non-trivial = distinct scenario with >= 2 requests and >= 1 delivered instance") % (
+                "plus seeded random larger databases (30-200 instances, 1-5 roots) walked by GETNEXT and by GETBULK with repetitions 2..25; non-trivial = distinct scenario with >= 2 requests and >= 1 delivered instance") % (
                    7 if q else 9, "; 3-root lists sampled 1/4 in quick" if q else "")
     ctx.exhaustive = not q
     W.drive_and_judge(ctx, S)
